@@ -98,6 +98,11 @@ def seed_layouts(rng):
         [F(), md, moov([trak(box(b"co64", b"\0\0\0\0" + be32(7 * 2**29 + 2) + be64(7) + be64(8)))])],
         [F(), moov([trak(box(b"stco", b"\0\0\0\0" + be32(2**30 + 1) + be32(7)))]), md],
     ]
+    # every single bit of the version/flags word of a table, and a few mixed words (a table header other than version 0, flags 0 is
+    # refused; were it accepted, the constant header written back would change a byte outside the entry table)
+    for w in [1 << b for b in range(32)] + [0x00010001, 0x00ffff00, 0x00800000, 0xff000000, 0x0000ff00]:
+        out.append([F(), md, moov([trak(box(b"stco", be32(w) + be32(1) + be32(7)))])])
+        out.append([F(), md, moov([trak(box(b"co64", be32(w) + be32(1) + be64(7)))])])
     return out
 
 
